@@ -141,37 +141,41 @@ type Config struct {
 }
 
 type Analysis struct {
-	cfg       Config
-	P         *prog.Program
-	objs      []*Obj
-	locs      []Loc
-	locIndex  map[cellKey]LocID
-	cellNode  map[LocID]NodeID
-	nodes     []*node
-	valNode   map[ssa.Value]NodeID
-	tupNode   map[tupKey]NodeID
-	synth     map[ssa.Value]*Obj
-	tupSynth  map[tupKey]*Obj
-	funcObj   map[*ssa.Function]*Obj
-	globalObj map[*ssa.Global]*Obj
-	retNode   map[retKey]NodeID
-	retSynth  map[retKey]*Obj
-	work      []NodeID
-	inWork    map[NodeID]bool
-	Reached   map[*ssa.Function]bool
-	queue     []*ssa.Function
-	Writes    []WriteSite
-	Escapes   []Escape
-	Callbacks []ssa.CallInstruction // dynamic calls treated as callbacks (A2)
-	Externals map[string]int        // external callee name -> call count
-	CallEdges map[ssa.CallInstruction][]*ssa.Function
-	Callers   map[*ssa.Function][]ssa.CallInstruction
-	rootObjs  map[string][]*Obj
-	World     *Obj
-	extObjs   map[ssa.Instruction]*Obj
-	worlds    map[string]*Obj
-	phiNodes  map[phiKey]NodeID
-	phiPruned map[phiKey]bool
+	cfg         Config
+	P           *prog.Program
+	objs        []*Obj
+	locs        []Loc
+	locIndex    map[cellKey]LocID
+	cellNode    map[LocID]NodeID
+	nodes       []*node
+	valNode     map[ssa.Value]NodeID
+	tupNode     map[tupKey]NodeID
+	synth       map[ssa.Value]*Obj
+	tupSynth    map[tupKey]*Obj
+	funcObj     map[*ssa.Function]*Obj
+	globalObj   map[*ssa.Global]*Obj
+	retNode     map[retKey]NodeID
+	retSynth    map[retKey]*Obj
+	work        []NodeID
+	inWork      map[NodeID]bool
+	Reached     map[*ssa.Function]bool
+	queue       []*ssa.Function
+	Writes      []WriteSite
+	Escapes     []Escape
+	Callbacks   []ssa.CallInstruction // dynamic calls treated as callbacks (A2)
+	Externals   map[string]int        // external callee name -> call count
+	CallEdges   map[ssa.CallInstruction][]*ssa.Function
+	Callers     map[*ssa.Function][]ssa.CallInstruction
+	rootObjs    map[string][]*Obj
+	World       *Obj
+	extObjs     map[ssa.Instruction]*Obj
+	worlds      map[string]*Obj
+	worldCalled map[*Obj]bool
+	// WorldCalled: engine functions that escaped to an external world and are
+	// therefore analysed as called from it.
+	WorldCalled []*ssa.Function
+	phiNodes    map[phiKey]NodeID
+	phiPruned   map[phiKey]bool
 	// PrunedPhis counts phi uses refined by guarded-phi pruning.
 	PrunedPhis int
 }
@@ -745,7 +749,7 @@ func (a *Analysis) Run() {
 			}
 		}
 	}
-	for len(a.queue) > 0 || len(a.work) > 0 {
+	for len(a.queue) > 0 || len(a.work) > 0 || a.worldCalls() {
 		for len(a.queue) > 0 {
 			f := a.queue[0]
 			a.queue = a.queue[1:]
@@ -761,6 +765,53 @@ func (a *Analysis) Run() {
 			}
 		}
 	}
+}
+
+// worldCalls: functions and closures that escaped to an external world (the
+// script runtime, a pool) may be called from there with arguments from that
+// world.  Returns true if new work was created.
+func (a *Analysis) worldCalls() bool {
+	if a.worldCalled == nil {
+		a.worldCalled = map[*Obj]bool{}
+	}
+	worlds := []*Obj{a.World}
+	for _, w := range a.worlds {
+		worlds = append(worlds, w)
+	}
+	added := false
+	for _, w := range worlds {
+		l, ok := a.locIndex[cellKey{w.ID, ""}]
+		if !ok {
+			continue
+		}
+		cn, ok := a.cellNode[l]
+		if !ok {
+			continue
+		}
+		for o := range a.Reach(a.locsOf(cn)) {
+			if (o.Kind != KClosure && o.Kind != KFunc) || o.Fn == nil || a.worldCalled[o] || !a.inEngine(o.Fn) {
+				continue
+			}
+			a.worldCalled[o] = true
+			a.WorldCalled = append(a.WorldCalled, o.Fn)
+			added = true
+			a.reach(o.Fn)
+			for _, p := range o.Fn.Params {
+				if PointerLike(p.Type()) {
+					a.addLoc(a.nodeOf(p), a.loc(w, ""))
+				}
+			}
+			// results flow back into the world
+			sig := o.Fn.Signature
+			for i := 0; i < sig.Results().Len(); i++ {
+				t := sig.Results().At(i).Type()
+				if PointerLike(t) {
+					a.addCopy(a.placeOfRet(o.Fn, i, t).node, a.cell(a.loc(w, "")))
+				}
+			}
+		}
+	}
+	return added
 }
 
 func (a *Analysis) reach(f *ssa.Function) {
